@@ -432,6 +432,35 @@ func (l *lockerSim) checkNoNeedlessWait(ps []*Task, tasks []*Task) {
 				conflict = true
 			}
 		}
+		// a lock manager may also keep a request behind an EARLIER waiter it conflicts with
+		// (first come first served, so that writers are not starved): that is not a lost grant
+		for _, tk2 := range tasks {
+			q := l.cur[tk2]
+			if q == nil || q == r || !q.invoked || q.returned || q.cancelled || q.callStep > r.callStep || (q.callStep == r.callStep && q.task > r.task) {
+				continue
+			}
+			if _, isParked := parkedAt[tk2]; isParked {
+				continue
+			}
+			qw := map[string]bool{}
+			for _, a := range q.write {
+				qw[a] = true
+			}
+			qr := map[string]bool{}
+			for _, a := range q.read {
+				qr[a] = true
+			}
+			for _, a := range r.read {
+				if qw[a] {
+					conflict = true
+				}
+			}
+			for _, a := range r.write {
+				if qw[a] || qr[a] {
+					conflict = true
+				}
+			}
+		}
 		if !conflict {
 			l.violate("waiting-although-compatible", fmt.Sprintf("%s (R=%v W=%v) is still waiting inside Lock although nothing that holds or may hold a lock conflicts with it", r.name, r.read, r.write))
 		}
